@@ -147,6 +147,42 @@ fn perform(call: &str, shared: &OpeningHours, ti: usize) -> String {
             let isolated = [alone(paris(), 0), alone(tokyo(), 0), alone(paris(), 0), alone(paris(), 1), alone(tokyo(), 1), alone(tokyo(), 2), alone(paris(), 2)].join(" ");
             format!("{} {}", if inter == isolated { "CONSISTENT" } else { "INCONSISTENT" }, inter)
         }
+        "coords_two_zones" => {
+            // the same coordinates under several time zones, interleaved: the local time of a sun event is its absolute instant plus
+            // the zone's offset (Sun.tla), so the answers of two zones differ by the difference of their offsets - whatever was
+            // asked before (a memo keyed by coordinates and date only would hand one zone's times to the other)
+            use chrono::{Offset, Timelike};
+            use opening_hours::localization::Localize;
+            use opening_hours_syntax::rules::time::TimeEvent;
+            let zones = [chrono_tz::UTC, chrono_tz::Europe::Paris, chrono_tz::Asia::Tokyo, chrono_tz::America::New_York];
+            let mut ok = true;
+            let mut out = String::new();
+            for (k, (coords, date)) in [(paris(), NaiveDate::from_ymd_opt(2024, 6, 21).unwrap()), (tokyo(), NaiveDate::from_ymd_opt(2024, 12, 21).unwrap()),
+                                        (paris(), NaiveDate::from_ymd_opt(2025, 3, 20).unwrap())].into_iter().enumerate() {
+                let order: Vec<usize> = if k % 2 == 0 { vec![0, 1, 2, 3] } else { vec![3, 2, 1, 0] };
+                let mut local = [[0i64; 4]; 4];
+                for &zi in &order {
+                    let loc = TzLocation::new(zones[zi]).with_coords(coords);
+                    let oh = OpeningHours::parse("sunrise-sunset ; dawn-sunrise unknown").unwrap().with_context(Context::default().with_locale(loc.clone()));
+                    out.push_str(&format!("{:?} ", oh.schedule_at(date)));
+                    for (ei, ev) in [TimeEvent::Dawn, TimeEvent::Sunrise, TimeEvent::Sunset, TimeEvent::Dusk].into_iter().enumerate() {
+                        let t = loc.event_time(date, ev);
+                        local[zi][ei] = i64::from(t.hour() * 60 + t.minute());
+                    }
+                }
+                for zi in 1..4 {
+                    let off = i64::from(zones[zi].offset_from_utc_datetime(&date.and_hms_opt(12, 0, 0).unwrap()).fix().local_minus_utc()) / 60;
+                    for ei in 0..4 {
+                        let diff = (local[zi][ei] - local[0][ei] - off).rem_euclid(1440);
+                        if diff > 6 && diff < 1434 {
+                            ok = false;
+                        }
+                    }
+                }
+                out.push_str(&format!("{local:?} "));
+            }
+            format!("{} {out}", if ok { "CONSISTENT" } else { "INCONSISTENT" })
+        }
         "interleave_exprs" => {
             let a = OpeningHours::parse("Mo-Fr 10:00-18:00").unwrap();
             let b = OpeningHours::parse("Mo-Fr 12:00-14:00 unknown ; easter off").unwrap();
